@@ -13,6 +13,15 @@ Spec on impl (C): exactly-once dispatch per sent id (`onceOk`), field preservati
 implementation's observations; answer routing, firewall silence, loop liveness and
 "critical attributes as locally constructed" are plain comparisons made here.
 
+Two-party composition (case kind `two`): `cvdriver node2` executes CV.Node.n2_stepK / n2_step (CV/Model/NodeTwo.lean,
+the definition the once_and_back theorems are about) on a scenario - calls, schedule with cut points for both byte
+streams, handler returns / raises, firewalls; the same scenario runs on real endpoints (bare Protocols, or
+Node + Server + Client components with the harness as the network) and the observation streams are compared step by
+step: events executed on B, bytes per direction, answers accepted by A, what each waiting caller is resumed with,
+residue.  Judged on the implementation: exactly once, in order, never when the firewall rejects, own result and
+error flag to the caller of that call on that connection, one result packet per call id, answers on the calling
+connection only.
+
 Firewalls: the verdict is judged per event, for predicates on name / channels and for rules on
 args, kwargs, an attribute of the event and a call counter (see "firewall predicates" below):
 a rejected event is never written (send) / never dispatched and answered with the empty result
@@ -396,10 +405,10 @@ def rule_token(r):
 class World:
     """manager 0 hosts P0, P1 (server mode, socks 'S0','S1'); P2 and P3 are clients on their own managers"""
 
-    def __init__(self, fw):
+    def __init__(self, fw, app_cls=None):
         from circuits import Manager
         from circuits.node.protocol import Protocol
-        App = make_app_classes()
+        App = app_cls or make_app_classes()
         self.managers = [Manager(), Manager(), Manager()]
         self.apps = [App().register(m) for m in self.managers]
         self.fw = fw
@@ -424,6 +433,24 @@ class World:
     def _pred(spec):
         """the callable handed to Protocol(...): one instance per protocol and direction (it may carry state)"""
         return make_pred(spec)
+
+    def proto(self, p):
+        return self.protos[p]
+
+    def send(self, j, e):
+        return self.protos[2 + j].send(e)
+
+    def deliver(self, p, seg):
+        try:
+            self.protos[p].add_buffer(seg)
+            res = False
+        except Exception as ex:   # noqa: BLE001
+            res = type(ex).__name__
+        self.drain_all()
+        return res
+
+    def close(self):
+        return None
 
     def drain_all(self):
         """flush every manager until quiet; an exception out of flush() is what ends Manager.run()"""
@@ -944,6 +971,17 @@ def eval_one_session(ctx, case, excl):
                 violations.append((f'roundtrip({r.split()[-1]})', f'call {meta[2]} ({meta[3]}) arrived with a different {r.split()[-1]}'))
             elif meta[0] == 'wire':
                 violations.append(('packet-dropped(delimiter-in-payload)', f'written packet contains the delimiter: {meta[1]!r}...'))
+    # exactly one result packet per call id travels back (whatever flags / channels the call carried)
+    if not case.get('hostile'):
+        for (p, cid), spec in sent.items():
+            q = PEER[p]
+            n_res = sum(1 for ob in steps for pk in ob['writes'].get(q, [])
+                        if isinstance(pk, dict) and 'value' in pk and 'name' not in pk and pk.get('id') == cid
+                        and type(pk.get('id')) is type(cid))
+            ctx.count('result_packets_per_call', min(n_res, 3))
+            ctx.count('call_flags_channels', dup_sig(spec)[len('duplicate-result('):-1])
+            if n_res > 1:
+                violations.append((dup_sig(spec), f'call {cid} ({spec["name"]}) of P{p}: {n_res} result packets travelled back'))
     # answers: every call that was dispatched by a returning handler must have resolved its waiting generator
     if complete and not case.get('hostile'):
         for (p, cid), (g, e, state) in w.gens.items():
@@ -984,6 +1022,17 @@ def eval_one_session(ctx, case, excl):
     if has_rules:
         ctx.count('firewall_rules_checked_by', 'model and oracle' if model_on else 'oracle only (driver without rules)')
     ctx.case(strip_case(case), nontrivial=sum(len(ob['reads']) for ob in steps) > 1, validated=ok and model_on)
+
+
+def dup_sig(spec):
+    """classifier of a duplicated result: which feedback flags the call carried, which kind of channel it went to"""
+    flags = [f for f in ('success', 'failure', 'notify') if spec.get(f)]
+    if (spec.get('attrs') or {}).get('complete'):
+        flags.append('complete')
+    ch = [c for c in spec.get('channels', []) if isinstance(c, str)]
+    kind = ('star-channel' if '*' in ch else 'result-channel' if 'node_result' in ch else 'node-channel' if 'node' in ch
+            else 'plain-channel' if ch else 'no-channel')
+    return f"duplicate-result({'+'.join(flags) or 'no-flags'},{kind})"
 
 
 def fw_sig(base, why):
@@ -1213,6 +1262,9 @@ def eval_split(ctx, cases):
 NAMES = ['foo', 'bar', 'boom', 'hello_world', 'x']
 KEYS = ['a', 'k', 'value', 'name', 'id', 'meta', 'cls', '_name', 'errors', 'args']
 ATTR_KEYS = ['tag', '_t', 'color', 'x_y']
+# channels of a remote event: ordinary ones, the wildcard, the channel the results travel on, the node's own channel
+CHANNEL_POOL = [[], [], ['app'], ['chan1', 'app'], ['secret'], ['~~~'], ['*'], ['*'], ['*', 'app'], ['app', '*'], ['node_result'],
+                ['node_result', 'app'], ['node'], ['node', '*']]
 STRS = ['', 'a', 'hello', '~', '~~', '~~~', 'x~~~y', '"value":', 'é€', '\\', '"', '\n', 'a"value": 1', '~~~{"id":0}~~~', '\x00', ' ']
 
 
@@ -1241,9 +1293,11 @@ def gen_event(rng, big=False, names=NAMES, plain=False):
         args.append(gen_value(rng, big=True))
     kwargs = {} if plain else {rng.choice(KEYS): gen_value(rng) for _ in range(rng.choice([0, 0, 1, 2]))}
     attrs = {} if plain else {rng.choice(ATTR_KEYS): gen_value(rng, 1) for _ in range(rng.choice([0, 0, 0, 1]))}
+    if not plain and rng.random() < 0.2:
+        attrs['complete'] = True              # the fourth feedback flag (an instance attribute, like the others)
     return {'name': name, 'args': args, 'kwargs': kwargs,
             'success': rng.random() < 0.3, 'failure': rng.random() < 0.3, 'notify': rng.random() < 0.2,
-            'channels': rng.choice([[], [], ['app'], ['chan1', 'app'], ['secret'], ['~~~']]), 'attrs': attrs}
+            'channels': rng.choice(CHANNEL_POOL), 'attrs': attrs}
 
 
 def gen_fw(rng):
@@ -1644,7 +1698,965 @@ def meta_key_pool():
     return sorted(keys)
 
 
-EVAL = {'session': eval_session, 'codec': eval_codec, 'roundtrip': eval_roundtrip, 'split': eval_split}
+# ---------------------------------------------------------------------------------------
+# two-party / k-connection composition: `cvdriver node2` executes CV.Node.n2_stepK (the definition the
+# once_and_back theorems are about) on a scenario; the same scenario runs on real Protocol endpoints
+#
+# case = {'kind': 'two', 'conns': [{'calls': [event spec…], 'beh': [{'ret': v, 'sets': {…}} | {'raise': 1} …],
+#                                   'fw': {'sa'|'ra'|'sb'|'rb': [names, chans, rules]}} …],
+#         'steps': [[j, 'send'] | [j, 'dab', n] | [j, 'ans', id] | [j, 'dba', n] | [j, 'poll', id] …]}
+# connection j: caller A_j = client protocol P(2+j), callee B_j = server-mode protocol P(j); B_0 and B_1 share
+# one manager (every result_handler of the process sees every `_success` event).  `dab n` hands the next <= n
+# bytes of the stream A->B to B.add_buffer; n may be a cut *mode* (resolved against the bytes the implementation
+# wrote, then stored as a number: a replay file is concrete).  `ans id`: the handler of the running call `id`
+# returns / raises (the handlers are real generator handlers, parked until the scenario releases them).
+# ---------------------------------------------------------------------------------------
+
+TWO_MODES = ['all', 'all', 'half', 'one', 'to-delim', 'in-delim-1', 'in-delim-2', 'past-delim', 'two-packets-minus', 'rand']
+
+
+def make_app2():
+    from circuits import Component, handler
+
+    class App2(Component):
+        channel = 'app'
+
+        def init(self):
+            self.writes = []
+            self.log = []
+            self.seen = []
+            self.on_call = None      # callback: event -> record {'released', 'beh'}
+            self.swallow_connect = False
+            self.errors = []
+
+        @handler('write', channel='*', priority=50)
+        def _on_write(self, event, *a):
+            self.writes.append(a)
+            event.stop()             # the socket component (if any) must not see it: the harness is the wire
+
+        @handler('connect', channel='*', priority=50)
+        def _on_connect(self, event, *a):
+            if self.swallow_connect:
+                event.stop()         # a client's connection request: the harness is the network
+
+        @handler('exception', channel='*', priority=50)
+        def _on_exception(self, *a, **kw):
+            self.errors.append(a[:2])
+
+        @handler(channel='*', priority=1000)
+        def _on_any(self, event, *args, **kwargs):
+            if 'node_call_id' in event.__dict__ and not any(event is x for x in self.seen):
+                self.seen.append(event)
+                self.log.append(event)
+                return self._run(event, self.on_call(event))
+            return None
+
+        @staticmethod
+        def _run(event, rec):
+            while not rec['released']:
+                yield
+            beh = rec['beh']
+            if 'raise' in beh:
+                raise RuntimeError('handler failed')
+            for k, v in beh.get('sets', {}).items():
+                setattr(event, k, v)
+            if beh.get('ret') is not None:
+                yield beh['ret']
+
+    return App2
+
+
+class SockDouble:
+    """what the server side knows a connection by"""
+
+    def __init__(self, name):
+        self.name = name
+        self.open = True
+
+    def getpeername(self):
+        if not self.open:
+            raise OSError('closed')
+        return ('127.0.0.1', 1)
+
+    def __repr__(self):
+        return f'<sock {self.name}>'
+
+
+class NodeWorld:
+    """the same two-party world built from the real components: one `Node` with a `Server` (one Protocol per
+    accepted connection, created by its `connect` handler) on manager 0, one `Node` with a peer added by
+    `Node.add` (`Client` + Protocol) per caller on managers 1, 2.  The harness is the network: `write` events are
+    captured and stopped, bytes arrive as `read` events on the components' channels, connection requests of the
+    clients are swallowed; nothing is ever polled (the managers are flushed by hand, never ticked)."""
+
+    def __init__(self, fw, app_cls, nconn):
+        from circuits import Manager
+        from circuits.net.events import connect
+        from circuits.node import Node
+        self.managers = [Manager(), Manager(), Manager()]
+        self.apps = [app_cls().register(m) for m in self.managers]
+        self.dead = None
+        self.nconn = nconn
+        self.socks = [SockDouble(f'S{j}') for j in range(nconn)]
+        preds = {}
+        for p in range(4):
+            f = fw.get(str(p))
+            if f:
+                preds[p] = (make_pred(f['send']), make_pred(f['recv']))
+
+        def server_fw(side):
+            def pred(event, sock):
+                p = preds.get(int(sock.name[1:])) if isinstance(sock, SockDouble) else None
+                return p[side](event, sock) if p else True
+            return pred
+        kw = {'send_event_firewall': server_fw(0), 'receive_event_firewall': server_fw(1)} if any(p < 2 for p in preds) else {}
+        self.node_b = Node(port=0, server_ip='127.0.0.1', **kw).register(self.managers[0])
+        self.nodes_a, self.clients, self.chans = [], [], []
+        for j in range(nconn):
+            self.apps[1 + j].swallow_connect = True
+            na = Node().register(self.managers[1 + j])
+            kw = {}
+            if 2 + j in preds:
+                kw = {'send_event_firewall': preds[2 + j][0], 'receive_event_firewall': preds[2 + j][1]}
+            chan = na.add(f'peer{j}', '127.0.0.1', self.node_b.server.port or 1, reconnect_delay=0, **kw)
+            self.nodes_a.append(na)
+            self.chans.append(chan)
+            self.clients.append(na.get_peer(f'peer{j}'))
+        self.drain_all()
+        for j in range(nconn):
+            self.managers[0].fire(connect(self.socks[j], '127.0.0.1', 40000 + j), self.node_b.channel)
+        self.drain_all()
+        for app in self.apps:
+            app.writes.clear()
+
+    drain_all = World.drain_all
+
+    def proto(self, p):
+        if p < 2:
+            return self.node_b.server._Server__protocols[self.socks[p]]
+        return self.clients[p - 2]._Client__protocol
+
+    def send(self, j, e):
+        """the generator a caller waits on: `Client.send`, or - for every other call that names its channels - the
+        one `Node.__on_remote` returns for a `remote` event (it overwrites the call's channels with those the
+        `remote` event was fired on: the harness fires it on the call's own)"""
+        self.nsend = getattr(self, 'nsend', 0) + 1
+        chans = tuple(getattr(e, 'channels', ()) or ())
+        if self.nsend % 2 == 0 and chans and all(isinstance(c, str) for c in chans):
+            from circuits.node.events import remote
+            m = self.managers[1 + j]
+            ev = remote(e, f'peer{j}')
+            m.fire(ev, *chans)
+            self.drain_all()
+            for task in list(m._tasks):
+                if task[0] is ev:
+                    self.via_remote = getattr(self, 'via_remote', 0) + 1
+                    return task[1]
+            raise RuntimeError('Node did not turn the remote event into a send')
+        return self.clients[j].send(e)
+
+    def deliver(self, p, seg):
+        """-> name of the exception that left the read handler, or False"""
+        from circuits.net.events import read
+        app = self.apps[0 if p < 2 else p - 1]
+        n = len(app.errors)
+        if p < 2:
+            self.managers[0].fire(read(self.socks[p], seg), self.node_b.channel)
+        else:
+            self.managers[p - 1].fire(read(seg), self.chans[p - 2])
+        self.drain_all()
+        return app.errors[n][0].__name__ if len(app.errors) > n else False
+
+    def take_writes(self):
+        out = {}
+        for h, app in enumerate(self.apps):
+            for a in app.writes:
+                if len(a) == 2:
+                    p, data = int(a[0].name[1:]), a[1]
+                else:
+                    p, data = 1 + h, a[0]
+                out.setdefault(p, []).append(data)
+            app.writes.clear()
+        return out
+
+    def close(self):
+        """the peers go away: the server forgets their protocols; every descriptor the components opened is closed"""
+        import os
+        from circuits.core.pollers import BasePoller
+        from circuits.net.events import disconnect
+        gone = None
+        try:
+            for sk in self.socks:
+                sk.open = False
+            self.managers[0].fire(disconnect(self.socks[0]), self.node_b.channel)
+            self.drain_all()
+            gone = len(self.node_b.server.get_socks())
+        except Exception:   # noqa: BLE001
+            pass
+        for m in self.managers:
+            for c in list(m.components) + [x for c in m.components for x in _walk(c)]:
+                sk = getattr(c, '_sock', None)
+                if sk is not None and hasattr(sk, 'close'):
+                    try:
+                        sk.close()
+                    except Exception:   # noqa: BLE001
+                        pass
+                if isinstance(c, BasePoller):
+                    for fd in (c._ctrl_recv, c._ctrl_send):
+                        try:
+                            os.close(fd) if isinstance(fd, int) else fd.close()
+                        except Exception:   # noqa: BLE001
+                            pass
+        return gone
+
+
+def _walk(c):
+    for x in c.components:
+        yield x
+        yield from _walk(x)
+
+
+def two_fw(case):
+    fw = {}
+    for j, c in enumerate(case['conns']):
+        f = c.get('fw') or {}
+        if f:
+            fw[str(2 + j)] = {'send': f.get('sa', [[], []]), 'recv': f.get('ra', [[], []])}
+            fw[str(j)] = {'send': f.get('sb', [[], []]), 'recv': f.get('rb', [[], []])}
+    return fw
+
+
+def two_cut(mode, data, rng):
+    n = len(data)
+    if isinstance(mode, int):
+        return mode
+    d = data.find(DELIM)
+    if mode == 'half':
+        return max(1, n // 2)
+    if mode == 'one':
+        return 1
+    if mode == 'rand':
+        return rng.randint(1, max(1, n))
+    if d >= 0:
+        if mode == 'to-delim':
+            return max(1, d)
+        if mode == 'in-delim-1':
+            return d + 1
+        if mode == 'in-delim-2':
+            return d + 2
+        if mode == 'past-delim':
+            return d + 3
+        if mode == 'two-packets-minus':
+            d2 = data.find(DELIM, d + 3)
+            return (d2 + 3 - rng.randint(1, 4)) if d2 >= 0 else d + 3 + rng.randint(0, 3)
+    return max(1, n)
+
+
+def split_packets(data):
+    """written bytes -> [(canonical JSON of the packet | raw hex, length)]; every write ends with the delimiter"""
+    out = []
+    pieces = data.split(DELIM)
+    tail = pieces.pop()
+    for p in pieces:
+        try:
+            out.append((canon(json.loads(p.decode('utf-8'))), len(p)))
+        except (ValueError, Unsupported):
+            out.append(('raw:' + p.hex(), len(p)))
+    if tail:
+        out.append(('unterminated:' + tail.hex(), len(tail)))
+    return out
+
+
+def run_two_impl(case):
+    """runs the scenario on the implementation; returns (concrete steps, per-step observations, end state)"""
+    import random
+    from circuits import Event
+    base = set(dir(Event())) | BASE_EXTRA
+    rng = random.Random(case.get('seed', 0))
+    nconn = len(case['conns'])
+    if case.get('backend') == 'node':
+        w = NodeWorld(two_fw(case), make_app2(), nconn)
+    else:
+        w = World(two_fw(case), app_cls=make_app2())
+    records = {j: [] for j in range(nconn)}       # dispatch records per connection, in order
+
+    def on_call(event):
+        sock = event.__dict__.get('node_sock')
+        sock = getattr(sock, 'name', sock)
+        j = int(sock[1:]) if isinstance(sock, str) else -1
+        recs = records.setdefault(j, [])
+        k = len(recs)
+        behs = case['conns'][j]['beh'] if 0 <= j < nconn else []
+        rec = {'j': j, 'k': k, 'id': event.__dict__.get('node_call_id'), 'released': False,
+               'beh': behs[k] if k < len(behs) else {'ret': None, 'sets': {}}, 'event': event, 'logged': False}
+        recs.append(rec)
+        return rec
+    for app in w.apps:
+        app.on_call = on_call
+    ab = {j: b'' for j in range(nconn)}
+    ba = {j: b'' for j in range(nconn)}
+    todo = {j: list(c['calls']) for j, c in enumerate(case['conns'])}
+    gens = {}        # (j, id) -> [generator, event, state]
+    sent = {j: [] for j in range(nconn)}          # (id or None, spec) per send step, None = blocked
+    reads = {p: [] for p in range(4)}             # segments handed to add_buffer of protocol p
+    steps, obs = [], []
+
+    def pending_table(p):
+        try:
+            evs = getattr(w.proto(p), '_Protocol__events')
+            out = []
+            for cid, ev in evs.items():
+                fin = hasattr(ev, 'remote_finish')
+                out.append((cid, fin, ev.value.value if fin else None, getattr(ev, 'errors', None) if fin else None))
+            return out
+        except Exception:   # noqa: BLE001  (not observable: the comparison is skipped)
+            return None
+
+    for st in case['steps']:
+        j, kind = st[0], st[1]
+        ob = {'fires': [], 'aborted': False, 'yields': [], 'dead': None}
+        before = {q: pending_table(2 + q) for q in range(nconn)}
+        st2 = list(st)
+        if kind == 'send':
+            if todo[j]:
+                spec = todo[j].pop(0)
+                e = make_event(spec)
+                g = w.send(j, e)
+                try:
+                    first = next(g)
+                except StopIteration:
+                    first = 'stop'
+                ob['first'] = 'none' if first is None else ('stop' if first == 'stop' else 'value')
+                ob['gen'] = (g, e, spec)
+                w.drain_all()
+        elif kind in ('dab', 'dba'):
+            box = ab if kind == 'dab' else ba
+            n = two_cut(st[2], box[j], rng)
+            st2[2] = n
+            seg, box[j] = box[j][:n], box[j][n:]
+            q = j if kind == 'dab' else 2 + j
+            reads[q].append(seg)
+            ob['aborted'] = w.deliver(q, seg)
+        elif kind == 'ans':
+            rec = next((r for r in records[j] if not r['released'] and r['id'] == st[2]
+                        and isinstance(r['id'], int) and not isinstance(r['id'], bool)), None)
+            if rec is not None:
+                rec['released'] = True
+                m = w.managers[0]
+                try:
+                    for _ in range(4):
+                        for task in list(m._tasks):
+                            m.processTask(*task)
+                except Exception as ex:   # noqa: BLE001
+                    w.dead = f'{type(ex).__name__}: {ex}'
+                w.drain_all()
+        elif kind == 'poll':
+            key = (j, st[2])
+            if key in gens and gens[key][2] == 'waiting':
+                g, e, _s = gens[key]
+                try:
+                    v = next(g)
+                    if v is not None:
+                        gens[key][2] = 'done'
+                        ob['yields'].append((st[2], v.value, getattr(e, 'errors', '<unset>')))
+                except StopIteration:
+                    gens[key][2] = 'stopped'
+                    ob['yields'].append((st[2], '<generator stopped>', None))
+                except Exception as ex:   # noqa: BLE001
+                    gens[key][2] = 'error'
+                    ob['yields'].append((st[2], f'<generator raised {type(ex).__name__}>', None))
+        # ---- what the step did
+        ob['writes'] = {}
+        for p, ws in w.take_writes().items():
+            data = b''.join(ws)
+            q, direction = (p, 'ba') if p < 2 else (p - 2, 'ab')
+            if q < nconn:
+                (ba if direction == 'ba' else ab)[q] += data
+            ob['writes'][(q, direction)] = data
+        for q in range(nconn):
+            for rec in records[q]:
+                if not rec['logged']:
+                    rec['logged'] = True
+                    rec['obs'] = event_obs(rec['event'], base)
+                    ob['fires'].append((q, rec['k'], rec['id'], rec['obs']))
+        for h, app in enumerate(w.apps):
+            app.log.clear()
+        ob['resolved'] = {}
+        for q in range(nconn):
+            now = pending_table(2 + q)
+            if now is None or before[q] is None:
+                ob['resolved'][q] = None
+                continue
+            was = {cid for cid, fin, _v, _e in before[q] if fin}
+            ob['resolved'][q] = [(cid, v, er) for cid, fin, v, er in now if fin and cid not in was]
+        if kind == 'send' and 'gen' in ob:
+            g, e, spec = ob.pop('gen')
+            data = ob['writes'].get((j, 'ab'), b'')
+            cid = None
+            if data:
+                try:
+                    cid = json.loads(data.split(DELIM)[0].decode('utf-8')).get('id')
+                except Exception:   # noqa: BLE001
+                    cid = None
+                gens[(j, cid)] = [g, e, 'waiting']
+            sent[j].append((cid if data else None, spec))
+        ob['dead'] = w.dead
+        steps.append(st2)
+        obs.append(ob)
+        if w.dead:
+            break
+    end = {'ab': {j: len(ab[j]) for j in range(nconn)}, 'ba': {j: len(ba[j]) for j in range(nconn)},
+           'todo': {j: len(todo[j]) for j in range(nconn)},
+           'apending': {j: pending_table(2 + j) for j in range(nconn)},
+           'bpending': {j: pending_table(j) for j in range(nconn)},
+           'running': {j: [r['id'] for r in records[j] if not r['released']] for j in range(nconn)},
+           'fired': {j: len(records[j]) for j in range(nconn)},
+           'records': records, 'gens': gens, 'sent': sent, 'reads': reads}
+    end['protocols_after_disconnect'] = w.close()
+    end['via_remote'] = getattr(w, 'via_remote', 0)
+    return steps, obs, end
+
+
+def two_fw_ops(j, f):
+    ops = []
+    for side in ('sa', 'ra', 'sb', 'rb'):
+        if side in f:
+            names, chans, rules = fw_parts(f[side])
+            ops.append(f"fw {j} {side} {' '.join(sx(x) for x in names)} | {' '.join(sx(x) for x in chans)} | "
+                       f"{' '.join(rule_token(r) for r in rules)}")
+    return ops
+
+
+def two_step_op(st):
+    j, kind = st[0], st[1]
+    return f'step {j} {kind}' + (f' {st[2]}' if len(st) > 2 else '')
+
+
+def dknow_line(obj):
+    """oracle encode . json.dumps for the tree `obj` (key order as given)"""
+    return f"dknow {hx(json.dumps(obj).encode('utf-8'))} {jt(obj)}"
+
+
+def parse_two_answer(a):
+    """model observation of one step -> {j: {'fires','wab','wba','resolved','yields','aborted'}}"""
+    out = {}
+    if a == 'nothing':
+        return out
+    for part in a.split(' || '):
+        head, _, rest = part.partition(' ')
+        d = out.setdefault(int(head[1:]), {'fires': [], 'wab': b'', 'wba': b'', 'resolved': [], 'yields': [], 'aborted': False})
+        for item in rest.split(' ; '):
+            kind, _, body = item.strip().partition(' ')
+            toks = body.split()
+            if kind == 'fire':
+                cid, k = jdec_tokens(toks, 1)
+                ev, _ = jdec_tokens(toks, k)
+                d['fires'].append((int(toks[0]), cid, ev))
+            elif kind in ('wab', 'wba'):
+                d[kind] += unhx(body)
+            elif kind == 'resolve':
+                v, k = jdec_tokens(toks, 1)
+                er, _ = jdec_tokens(toks, k)
+                d['resolved'].append((int(toks[0]), v, er))
+            elif kind == 'yield':
+                vals, k = jdec_tokens(toks, 1)
+                er, _ = jdec_tokens(toks, k)
+                d['yields'].append((int(toks[0]), vals, er))
+            elif kind == 'aborted':
+                d['aborted'] = True
+    return out
+
+
+def safe_canon(x):
+    try:
+        return canon(x)
+    except Unsupported:
+        return 'unsupported:' + repr(x)
+
+
+def eval_two(ctx, cases):
+    from circuits.node.utils import META_EXCLUDE
+    excl = sorted(META_EXCLUDE)
+    live = []
+    for case in cases:
+        co = eval_one_two(ctx, case, excl)
+        try:
+            live.append((co, next(co)))
+        except StopIteration:
+            pass
+        except Unsupported:
+            ctx.count('skipped', 'unsupported-json')
+    while live:
+        answers = ctx.driver.batch('node2', [ops for _co, ops in live])
+        nxt = []
+        for (co, _ops), ans in zip(live, answers):
+            try:
+                nxt.append((co, co.send(ans)))
+            except StopIteration:
+                pass
+            except Unsupported:
+                ctx.count('skipped', 'unsupported-json')
+        live = nxt
+
+
+def eval_one_two(ctx, case, excl):
+    steps, obs, end = run_two_impl(case)
+    case = dict(case, steps=steps)            # cut modes resolved: what is recorded is concrete
+    nconn = len(case['conns'])
+    # ---- model ops
+    pre = ['excl ' + ' '.join(sx(n) for n in excl)]
+    for j, c in enumerate(case['conns']):
+        pre.append(f'conn {j}')
+        pre += two_fw_ops(j, c.get('fw') or {})
+        for spec in c['calls']:
+            pre.append(f'call {j} {jt(ev_to_j(spec))}')
+        for b in c['beh']:
+            pre.append(f'beh {j} raise' if 'raise' in b else f"beh {j} ret {jt([b.get('ret'), b.get('sets', {})])}")
+    oracle = {}
+    for p in range(4):
+        total = b''.join(end['reads'][p])
+        if total:
+            ends, n = [], 0
+            for seg in end['reads'][p]:
+                n += len(seg)
+                ends.append(n)
+            for piece, ln in candidate_pieces(total, ends).items():
+                if ln is None:
+                    raise Unsupported()
+                oracle[ln] = True
+    for ob in obs:
+        for data in ob['writes'].values():
+            for piece in data.split(DELIM)[:-1]:
+                try:
+                    oracle[dknow_line(json.loads(piece.decode('utf-8')))] = True
+                except (ValueError, Unsupported):
+                    pass
+    body = [two_step_op(st) for st in steps] + [f'dump {j}' for j in range(nconn)]
+    rounds = 0
+    while True:
+        ops = pre + sorted(oracle) + body
+        answers = yield ops
+        head = len(ops) - len(body)
+        bad = [(o, a) for o, a in zip(ops[:head], answers[:head]) if a != 'ok']
+        if bad:
+            ctx.disagree(case, {'where': 'node2.preamble', 'op': bad[0][0][:300], 'model': bad[0][1]})
+            ctx.case(case, validated=False)
+            return
+        ans = answers[head:]
+        need = next((a for a in ans if a.startswith('need')), None)
+        if need is None:
+            break
+        rounds += 1
+        if rounds > 40:
+            ctx.disagree(case, {'where': 'node2.oracle', 'model': 'keeps asking: ' + need[:200]})
+            ctx.case(case, validated=False)
+            return
+        if need.startswith('needd '):
+            ln = dknow_line(jdec(need[6:]))
+        else:
+            ln = oracle_line(unhx(need.split()[1]))
+        if ln is None:
+            raise Unsupported()
+        oracle[ln] = True
+    ctx.count('two_oracle_rounds', min(rounds, 10))
+    # ---- compare the observation streams step by step
+    ok = True
+    violations = []
+
+    def differ(i, what, impl, model):
+        nonlocal ok
+        if ok:
+            ctx.disagree(case, {'where': f'node2.{what}', 'step': i, 'op': two_step_op(steps[i]) if i < len(steps) else 'dump',
+                                'impl': str(impl)[:400], 'model': str(model)[:400]})
+        ok = False
+    for i, (st, ob, a) in enumerate(zip(steps, obs, ans)):
+        if a == 'bad-op':
+            differ(i, 'bad-op', '', a)
+            break
+        if ob['dead']:
+            violations.append((f'loop-killed(two-party:{st[1]})', f'flush()/processTask raised {ob["dead"]} in step {i} {st}'))
+            break
+        m = parse_two_answer(a)
+        for q in range(nconn):
+            mq = m.get(q, {'fires': [], 'wab': b'', 'wba': b'', 'resolved': [], 'yields': [], 'aborted': False})
+            # events executed on B, in order, with their arguments
+            i_f = [(k, safe_canon(cid), safe_canon(ev)) for (qq, k, cid, ev) in ob['fires'] if qq == q]
+            m_f = []
+            for k, cid, ev in mq['fires']:
+                ev = dict(ev, success=True)
+                if not ev['channels']:
+                    ev['channels'] = ['node']
+                m_f.append((k, safe_canon(cid), safe_canon(ev)))
+            if i_f != m_f:
+                differ(i, f'fires[{q}]', i_f, m_f)
+            # bytes per direction
+            for direction, key in (('ab', 'wab'), ('ba', 'wba')):
+                iw = ob['writes'].get((q, direction), b'')
+                if split_packets(iw) != split_packets(mq[key]):
+                    differ(i, f'bytes[{q},{direction}]', iw[:200], mq[key][:200])
+            # answers accepted by A
+            if ob['resolved'][q] is not None:
+                # (the error flag is compared where an observer reads it: at the caller's resumption and in the
+                # residue - an `errors` attribute of the answering event overrides the packet's flag)
+                i_r = sorted((cid, safe_canon(v)) for cid, v, _er in ob['resolved'][q])
+                m_r = sorted((cid, safe_canon(v)) for cid, v, _er in mq['resolved'])
+                if i_r != m_r:
+                    differ(i, f'resolved[{q}]', i_r, m_r)
+            else:
+                ctx.count('two_residue', 'pending table not observable')
+            # results delivered to the waiting caller
+            i_y = [(cid, safe_canon(v), safe_canon(er)) for cid, v, er in ob['yields']] if q == st[0] else []
+            m_y = [(cid, safe_canon(vals[0]) if len(vals) == 1 else 'several:' + safe_canon(vals), safe_canon(er))
+                   for cid, vals, er in mq['yields']]
+            if i_y != m_y:
+                differ(i, f'yield[{q}]', i_y, m_y)
+            if bool(ob['aborted']) != mq['aborted'] and q == st[0]:
+                differ(i, f'aborted[{q}]', ob['aborted'], mq['aborted'])
+    # ---- residue
+    if ok and not any(ob['dead'] for ob in obs) and len(obs) == len(steps):
+        for q, a in enumerate(ans[len(steps):]):
+            t = a.split()
+            f = {t[k]: t[k + 1] for k in (0, 2, 4, 6, 8, 10, 12)}
+            rest = t[14:]
+            idx = {name: rest.index(name) for name in ('apending', 'bpending', 'running', 'fired')} if a != 'bad-op' else {}
+            if not idx:
+                differ(len(steps), 'dump', '', a)
+                continue
+            apend = jdec(' '.join(rest[idx['apending'] + 1:idx['bpending']]))
+            bpend = jdec(' '.join(rest[idx['bpending'] + 1:idx['running']]))
+            running = jdec(' '.join(rest[idx['running'] + 1:idx['fired']]))
+            mfired = int(rest[idx['fired'] + 1])
+            impl_res = {'todo': end['todo'][q], 'ab': end['ab'][q], 'ba': end['ba'][q], 'fired': end['fired'][q],
+                        'running': [safe_canon(x) for x in end['running'][q]]}
+            model_res = {'todo': int(f['todo']), 'ab': int(f['ab']), 'ba': int(f['ba']), 'fired': mfired,
+                         'running': [safe_canon(x) for x in running]}
+            for side, mp in (('apending', apend), ('bpending', bpend)):
+                ip = end[side][q]
+                if ip is None:
+                    continue
+                impl_res[side] = sorted((cid, fin, safe_canon(v) if fin else '-', safe_canon(er) if fin else '-') for cid, fin, v, er in ip)
+                model_res[side] = sorted((cid, fin, (safe_canon(vals[0]) if len(vals) == 1 else 'several') if fin else '-',
+                                          safe_canon(er) if fin else '-') for cid, fin, vals, er, _m in mp)
+            if impl_res != model_res:
+                differ(len(steps), f'residue[{q}]', impl_res, model_res)
+    # ---- spec on impl: what C19 states, judged on the implementation's own behaviour
+    violations += judge_two(ctx, case, steps, obs, end)
+    seen = set()
+    for sig, what in violations:
+        if sig not in seen:
+            seen.add(sig)
+            ctx.violate(case, sig, what)
+    ctx.count('two_connections', nconn)
+    ctx.count('two_calls', sum(len(c['calls']) for c in case['conns']))
+    ctx.count('two_steps', min(len(steps) // 5 * 5, 60))
+    for st in steps:
+        ctx.count('two_step_kind', st[1])
+    ctx.count('two_kind', case.get('tag', 'two'))
+    ctx.count('two_backend', 'Node + Server + Client components' if case.get('backend') == 'node' else 'bare Protocol objects')
+    if case.get('backend') == 'node':
+        ctx.count('two_sends_via_remote_event', end['via_remote'])
+        ctx.count('two_server_protocols_after_disconnect', end['protocols_after_disconnect'])
+    ctx.case(case, nontrivial=len(steps) > 4, validated=ok)
+
+
+def two_quiescent(end, q):
+    return end['todo'][q] == 0 and end['ab'][q] == 0 and end['ba'][q] == 0 and not end['running'][q]
+
+
+def judge_two(ctx, case, steps, obs, end):
+    """executed exactly once / never when the firewall rejects / result and error flag back to the caller that
+    waits for this call on this connection / the answer travels on the calling connection only"""
+    out = []
+    nconn = len(case['conns'])
+    fwp = {}
+    for j, c in enumerate(case['conns']):
+        f = c.get('fw') or {}
+        fwp[j] = {side: pure_pred({'0': {'send': f.get(side, [[], []]), 'recv': f.get(side, [[], []])}}, 0, 'send')
+                  for side in ('sa', 'rb')} if f else None
+    for i, (st, ob) in enumerate(zip(steps, obs)):
+        for (q, direction), data in ob['writes'].items():
+            if data and q != st[0]:
+                out.append(('answer-on-other-connection',
+                            f'step {i} {st} on connection {st[0]} wrote {len(data)} bytes on connection {q} ({direction})'))
+    for q in range(nconn):
+        recs = end['records'].get(q, [])
+        sent = end['sent'][q]
+        spred = fwp[q]['sa'] if fwp[q] else (lambda e: (True, None))
+        rpred = fwp[q]['rb'] if fwp[q] else (lambda e: (True, None))
+        written = []
+        for cid, spec in sent:
+            v, why = spred(make_event(spec))
+            ctx.count('two_firewall_send', 'no firewall' if not fwp[q] else 'allowed' if v else f'rejected({why})')
+            if not v and cid is not None:
+                out.append((fw_sig('sent-despite-firewall', why), f'connection {q}: call {spec["name"]} rejected by the send firewall was written'))
+            if cid is not None:
+                written.append((cid, spec))
+        got_ids = [r['id'] for r in recs]
+        allowed, refused = [], {}
+        for cid, spec in written:
+            v, why = rpred(make_event(spec))
+            ctx.count('two_firewall_recv', 'no firewall' if not fwp[q] else 'allowed' if v else f'rejected({why})')
+            if v:
+                allowed.append(cid)
+            else:
+                refused[cid] = why
+                if cid in got_ids:
+                    out.append((fw_sig('dispatched-despite-firewall', why),
+                                f'connection {q}: call {cid} {spec["name"]}{tuple(spec["args"])!r} rejected by the receive firewall ({why}) was dispatched'))
+        twice = sorted({c for c in got_ids if got_ids.count(c) > 1}, key=str)
+        if twice:
+            out.append(('executed-twice', f'connection {q}: calls {twice} were dispatched more than once'))
+        disp_allowed = [c for c in got_ids if c in allowed]
+        if not twice and disp_allowed != allowed[:len(disp_allowed)]:
+            out.append(('executed-out-of-order', f'connection {q}: dispatched {got_ids}, sent (allowed) {allowed}'))
+        if any(c not in allowed and c not in refused for c in got_ids):
+            out.append(('executed-unsent', f'connection {q}: dispatched {got_ids}, sent {[c for c, _ in written]}'))
+        quiet = two_quiescent(end, q)
+        ctx.count('two_end', 'at rest' if quiet else 'in flight')
+        if quiet and not twice and disp_allowed != allowed:
+            out.append(('packet-dropped(two-party)', f'connection {q}: calls {[c for c in allowed if c not in got_ids]} were never dispatched'))
+        # exactly one result packet per call id travels back
+        back = []
+        for st, ob in zip(steps, obs):
+            for piece in ob['writes'].get((q, 'ba'), b'').split(DELIM)[:-1]:
+                try:
+                    pk = json.loads(piece.decode('utf-8'))
+                except ValueError:
+                    continue
+                if isinstance(pk, dict) and 'value' in pk and 'name' not in pk:
+                    back.append(pk.get('id'))
+        for cid, spec in written:
+            n_res = sum(1 for x in back if x == cid and type(x) is type(cid))
+            ctx.count('two_result_packets_per_call', min(n_res, 3))
+            ctx.count('two_call_flags_channels', dup_sig(spec)[len('duplicate-result('):-1])
+            if n_res > 1:
+                out.append((dup_sig(spec), f'connection {q}: {n_res} result packets travelled back for call {cid} ({spec["name"]})'))
+        # results: whatever a waiting caller was resumed with
+        yields = {}
+        for st, ob in zip(steps, obs):
+            if st[0] == q:
+                for cid, v, er in ob['yields']:
+                    yields.setdefault(cid, []).append((v, er))
+        by_id = {}
+        for r in recs:
+            by_id.setdefault(r['id'], []).append(r)
+        for cid, got in yields.items():
+            if len(got) > 1:
+                out.append(('wrong-result-routing(resumed-twice)', f'connection {q}: the caller of call {cid} was resumed {len(got)} times'))
+            v, er = got[0]
+            if isinstance(v, str) and v.startswith('<generator'):
+                out.append((f'wrong-result-routing({v.strip("<>").replace(" ", "-")})', f'connection {q}: generator of call {cid}: {v}'))
+                continue
+            if cid in refused:
+                ctx.count('two_result', 'empty answer of the firewall')
+                if v is not None or er is not False:
+                    out.append(('wrong-result-routing(rejected-call-got-a-result)',
+                                f'connection {q}: call {cid} is rejected by the receive firewall: the caller must get the empty answer, it got {got[0]!r}'))
+                continue
+            rs = by_id.get(cid, [])
+            if len(rs) != 1:
+                continue
+            beh = rs[0]['beh']
+            if 'raise' in beh or not rs[0]['released']:
+                out.append(('wrong-result-routing(result-without-return)',
+                            f'connection {q}: the caller of call {cid} was resumed with {got[0]!r} although its handler has not returned'))
+                continue
+            want_er = beh.get('sets', {}).get('errors', False) if 'errors' in beh.get('sets', {}) else False
+            ctx.count('two_result', 'value of the handler')
+            if safe_canon(v) != safe_canon(beh.get('ret')):
+                out.append(('wrong-result-routing(value)', f'connection {q}: call {cid} got {v!r}, its handler returned {beh.get("ret")!r}'))
+            elif safe_canon(er) != safe_canon(want_er):
+                out.append(('wrong-result-routing(error-flag)', f'connection {q}: call {cid} got the error flag {er!r}, expected {want_er!r}'))
+        # at rest and every caller polled afterwards: nobody is left waiting, except for the known finding
+        if quiet and case.get('closed'):
+            for (j, cid), (g, e, state) in end['gens'].items():
+                if j != q:
+                    continue
+                rs = by_id.get(cid, [])
+                if state == 'waiting':
+                    if len(rs) == 1 and 'raise' in rs[0]['beh']:
+                        ctx.count('two_result', 'no answer: handler raised')
+                        out.append(('no-answer(remote-handler-raised)',
+                                    f'connection {q}: call {cid} failed on the peer and the sender was never told'))
+                    else:
+                        out.append(('wrong-result-routing(no-answer)', f'connection {q}: generator of call {cid} never got an answer'))
+    return out
+
+
+def gen_two_fw(rng, kind):
+    """firewalls of a connection; `kind`: 'none' | 'recv' (B rejects some calls) | 'send' | 'both'"""
+    if kind == 'none':
+        return {}
+    def one():
+        r = rng.random()
+        if r < 0.35:
+            return [rng.sample(['bar', 'x'], rng.randint(1, 2)), [], []]
+        if r < 0.5:
+            return [[], ['secret'], []]
+        if r < 0.7:
+            return [[], [], [dict(FW_RULES['args'])]]
+        if r < 0.85:
+            return [[], [], [dict(FW_RULES['kwargs'])]]
+        return [[], [], [dict(FW_RULES['attribute'])]]
+    f = {}
+    if kind in ('recv', 'both'):
+        f['rb'] = one()
+    if kind in ('send', 'both'):
+        f['sa'] = one()
+    return f
+
+
+def gen_two_event(rng, fwkind):
+    if fwkind == 'none' or rng.random() < 0.3:
+        e = gen_event(rng, names=['foo', 'bar', 'hello_world', 'x'], big=rng.random() < 0.03)
+        return e
+    # events whose verdict differs although name and channels agree
+    ok = rng.random() < 0.6
+    e = {'name': rng.choice(['foo', 'foo', 'bar']), 'args': [rng.randint(0, 100) if ok else rng.randint(101, 9000)],
+         'kwargs': {'mode': 'ro'} if ok or rng.random() < 0.3 else rng.choice([{'mode': 'rw'}, {}]),
+         'success': rng.random() < 0.2, 'failure': rng.random() < 0.2, 'notify': False,
+         'channels': rng.choice(CHANNEL_POOL + [['secret']]) if rng.random() < 0.4 else [],
+         'attrs': {'token': 'sesame'} if ok or rng.random() < 0.3 else rng.choice([{'token': 'guess'}, {}])}
+    if rng.random() < 0.3:
+        e['args'].append(gen_value(rng, 1))
+    return e
+
+
+def gen_two_case(rng, nconn=1, ncalls=None, fwkind='none', raising=0.0, closed=True, tag='two'):
+    conns = []
+    for j in range(nconn):
+        n = rng.randint(1, 5) if ncalls is None else ncalls
+        calls = [gen_two_event(rng, fwkind) for _ in range(n)]
+        beh = []
+        for k in range(n):
+            if rng.random() < raising:
+                beh.append({'raise': 1})
+            else:
+                sets = {}
+                r = rng.random()
+                if r < 0.15:
+                    sets = {rng.choice(ATTR_KEYS): gen_value(rng, 1)}
+                elif r < 0.2:
+                    sets = {'errors': rng.choice([True, 'E', 1])}
+                elif r < 0.25:
+                    sets = {rng.choice(['__hidden', 'remote_finish']): gen_value(rng, 2)}
+                beh.append({'ret': rng.choice([['V', j, k, gen_value(rng, 1)], ['V', j, k], None, 0, '', f'v{j}.{k}~~~']), 'sets': sets})
+        conns.append({'calls': calls, 'beh': beh, 'fw': gen_two_fw(rng, fwkind)})
+    # a random schedule: enabled-ish steps, per connection counters are only a guide (any step is legal)
+    steps = []
+    sent = [0] * nconn
+    length = rng.randint(2, 10 * nconn + 4 * sum(len(c['calls']) for c in conns))
+    for _ in range(length):
+        j = rng.randrange(nconn)
+        r = rng.random()
+        if r < 0.25 and sent[j] < len(conns[j]['calls']):
+            steps.append([j, 'send'])
+            sent[j] += 1
+        elif r < 0.5:
+            steps.append([j, 'dab', rng.choice(TWO_MODES)])
+        elif r < 0.68:
+            steps.append([j, 'ans', rng.randrange(max(1, sent[j]))])
+        elif r < 0.88:
+            steps.append([j, 'dba', rng.choice(TWO_MODES)])
+        else:
+            steps.append([j, 'poll', rng.randrange(max(1, sent[j]))])
+    if closed:
+        # bring every connection to rest: remaining sends, everything delivered, handlers return in a random
+        # order (interleaved answers), everything delivered, every caller resumed
+        for j in rng.sample(range(nconn), nconn):
+            n = len(conns[j]['calls'])
+            steps += [[j, 'send']] * (n - sent[j])
+            steps += [[j, 'dab', rng.choice(['all', 'half', 'in-delim-1', 'past-delim'])] for _ in range(rng.randint(1, 3))]
+            steps += [[j, 'dab', 10 ** 9]]
+        order = [(j, k) for j in range(nconn) for k in range(len(conns[j]['calls']))]
+        rng.shuffle(order)
+        for j, k in order:
+            steps.append([j, 'ans', k])
+            if rng.random() < 0.4:
+                steps.append([j, 'dba', rng.choice(TWO_MODES)])
+        for j in range(nconn):
+            steps += [[j, 'dba', 10 ** 9]]
+        polls = [(j, k) for j in range(nconn) for k in range(len(conns[j]['calls']))]
+        rng.shuffle(polls)
+        steps += [[j, 'poll', k] for j, k in polls]
+    return {'kind': 'two', 'tag': tag, 'conns': conns, 'steps': steps, 'closed': closed, 'seed': rng.randint(0, 2 ** 30)}
+
+
+def two_directed_cases():
+    """interleaved answers: k calls in flight, handlers return in every order (k <= 3) / reversed (k = 4, 5), the
+    stream B->A cut inside the delimiters; the same ids on two connections"""
+    cases = []
+    plain = lambda i: {'name': 'foo', 'args': [i], 'kwargs': {}, 'success': False, 'failure': False, 'notify': False,  # noqa: E731
+                       'channels': [], 'attrs': {}}
+    for k in (2, 3):
+        for order in itertools.permutations(range(k)):
+            for cut in ('all', 'in-delim-1', 'one'):
+                steps = [[0, 'send']] * k + [[0, 'dab', 10 ** 9]] + [[0, 'ans', i] for i in order]
+                steps += ([[0, 'dba', cut]] * (40 if cut == 'one' else 2 * k)) + [[0, 'dba', 10 ** 9]] + [[0, 'poll', i] for i in range(k)]
+                cases.append({'kind': 'two', 'tag': 'two-interleaved', 'closed': True, 'seed': 7, 'steps': steps,
+                              'conns': [{'calls': [plain(i) for i in range(k)],
+                                         'beh': [{'ret': ['V', 0, i], 'sets': {}} for i in range(k)], 'fw': {}}]})
+    for k in (4, 5):
+        steps = [[0, 'send']] * k + [[0, 'dab', 'half'], [0, 'dab', 10 ** 9]] + [[0, 'ans', i] for i in reversed(range(k))]
+        steps += [[0, 'dba', 'in-delim-2']] * k + [[0, 'dba', 10 ** 9]] + [[0, 'poll', i] for i in range(k)]
+        cases.append({'kind': 'two', 'tag': 'two-interleaved', 'closed': True, 'seed': 8, 'steps': steps,
+                      'conns': [{'calls': [plain(i) for i in range(k)],
+                                 'beh': [{'ret': ['V', 0, i], 'sets': {}} for i in range(k)], 'fw': {}}]})
+    # two connections, same ids, answers crossed
+    for order in itertools.permutations([(0, 0), (0, 1), (1, 0), (1, 1)]):
+        steps = [[0, 'send'], [1, 'send'], [0, 'send'], [1, 'send'], [0, 'dab', 10 ** 9], [1, 'dab', 10 ** 9]]
+        steps += [[j, 'ans', i] for j, i in order] + [[0, 'dba', 10 ** 9], [1, 'dba', 10 ** 9]]
+        steps += [[j, 'poll', i] for j in (0, 1) for i in (0, 1)]
+        cases.append({'kind': 'two', 'tag': 'two-connections-same-ids', 'closed': True, 'seed': 9, 'steps': steps,
+                      'conns': [{'calls': [plain(i) for i in range(2)], 'beh': [{'ret': ['V', j, i], 'sets': {}} for i in range(2)],
+                                 'fw': {}} for j in range(2)]})
+    # a rejecting receive firewall between accepted calls; a handler that raises between two that return
+    fw = {'rb': [[], [], [dict(FW_RULES['args'])]]}
+    for pattern in ('ARA', 'RAR', 'RRA', 'AAR'):
+        calls = [dict(plain(0), args=[(5 if c == 'A' else 5000) + i]) for i, c in enumerate(pattern)]
+        steps = [[0, 'send']] * 3 + [[0, 'dab', 'in-delim-1'], [0, 'dab', 10 ** 9], [0, 'ans', 2], [0, 'ans', 0], [0, 'ans', 1],
+                                     [0, 'dba', 'half'], [0, 'dba', 10 ** 9]] + [[0, 'poll', i] for i in range(3)]
+        cases.append({'kind': 'two', 'tag': 'two-firewall', 'closed': True, 'seed': 10, 'steps': steps,
+                      'conns': [{'calls': calls, 'beh': [{'ret': ['V', 0, i], 'sets': {}} for i in range(3)], 'fw': fw}]})
+    steps = [[0, 'send']] * 3 + [[0, 'dab', 10 ** 9], [0, 'ans', 1], [0, 'ans', 2], [0, 'ans', 0], [0, 'dba', 10 ** 9]] + \
+        [[0, 'poll', i] for i in range(3)]
+    cases.append({'kind': 'two', 'tag': 'two-raising', 'closed': True, 'seed': 11, 'steps': steps,
+                  'conns': [{'calls': [plain(i) for i in range(3)],
+                             'beh': [{'ret': 'a', 'sets': {}}, {'raise': 1}, {'ret': 'c', 'sets': {}}], 'fw': {}}]})
+    return cases
+
+
+def two_cases(ctx):
+    cases = two_cases_plain(ctx)
+    n_directed = len(two_directed_cases())
+    out = []
+    for i, c in enumerate(cases):
+        if i < n_directed:
+            out.append(c)
+            out.append(dict(c, backend='node'))
+        else:
+            out.append(dict(c, backend='node') if i % 3 != 0 else c)
+    return out
+
+
+def two_cases_plain(ctx):
+    rng = ctx.rng
+    s = ctx.scale
+    cases = two_directed_cases()
+    for _ in range(150 * s):
+        cases.append(gen_two_case(rng, 1, tag='two-random'))
+    for _ in range(60 * s):
+        cases.append(gen_two_case(rng, 2, tag='two-connections'))
+    for i in range(120 * s):
+        cases.append(gen_two_case(rng, 1 + (i % 3 == 2), fwkind=['recv', 'recv', 'send', 'both'][i % 4], tag='two-firewall'))
+    for _ in range(40 * s):
+        cases.append(gen_two_case(rng, 1, raising=0.4, tag='two-raising'))
+    for _ in range(40 * s):
+        cases.append(gen_two_case(rng, rng.choice([1, 2]), closed=False, fwkind=rng.choice(['none', 'recv']), raising=0.1, tag='two-open'))
+    return cases
+
+
+EVAL = {'session': eval_session, 'codec': eval_codec, 'roundtrip': eval_roundtrip, 'split': eval_split, 'two': eval_two}
 
 
 def params(ctx):
@@ -1669,12 +2681,20 @@ def run(ctx):
                 'inside delimiters/after bodies/every 64/every 4096 bytes; hostile: JSON mutation grammar x metadata '
                 'keys of a dispatched event; codec: every field of a call packet x type swaps (exhaustive list) + random; '
                 'split: all strings <=7 over {~,a} (exhaustive); non-trivial = more than one read / any codec case; '
-                'distinct = distinct case')
+                'distinct = distinct case; two-party: scenarios (1-2 connections, 1-5 calls each with independently drawn '
+                'success/failure/notify/complete flags and channels incl. "*", "node_result", the node channel; handlers that '
+                'return in any order / raise; firewalls on both ends; both byte streams cut per scenario: whole, half, 1 byte, '
+                'before / inside / after a delimiter, across two packets) executed by `cvdriver node2` = CV.Node.n2_stepK and on real '
+                'endpoints - bare Protocol objects, and Node + Server + Client components (sends through Client.send and '
+                'through `remote` events) - observation streams compared step by step + residue')
     ctx.trusted += ['json.loads / json.dumps / UTF-8 decoding are an oracle of the model (table filled from the real functions)',
                     'JSON text never ends in "~" and a proper prefix of a dumped object is not JSON (hypotheses of '
                     'C19.packets_exact; exercised by the cut generators)',
                     'the handlers of the receiving side are abstract (value returned or exception); Manager dispatch order is '
                     "the core's (C01-C08)"]
+    ctx.trusted += ['two-party runs: the harness is the network (write events captured and stopped, bytes re-cut and injected as '
+                    'add_buffer calls / `read` events, managers flushed by hand, generator handlers parked until the scenario '
+                    'releases them); json.dumps is a second oracle of the model (table filled from the real function)']
     ctx.assumptions += ['strings with lone surrogates are not generated (the driver carries UTF-8)',
                         'a stateful firewall (every n-th event shown to it is rejected) is judged as the function of the '
                         'event it amounts to on a FIFO connection: the k-th call handed to send() / the k-th call packet '
@@ -1686,7 +2706,7 @@ def run(ctx):
     for c in ctx.corpus():
         EVAL[c['kind']](ctx, [c])
     groups = [('split', split_cases(ctx)), ('roundtrip', roundtrip_cases(ctx)), ('codec', codec_cases(ctx, meta_keys)),
-              ('session', session_cases(ctx, meta_keys))]
+              ('session', session_cases(ctx, meta_keys)), ('two', two_cases(ctx))]
     for kind, cases in groups:
         if kind == 'session':
             cases = [materialise(c) for c in cases]
